@@ -41,6 +41,7 @@ type schedSrc struct {
 	fault   int // -1: none; otherwise bytes left before every Read fails
 	reads   int
 	taken   int
+	once    bool // the fault is transient: after failing one Read the source recovers
 }
 
 func newSrc(data []byte, pieces []int, eofdata bool, fault int) *schedSrc {
@@ -50,6 +51,9 @@ func newSrc(data []byte, pieces []int, eofdata bool, fault int) *schedSrc {
 func (s *schedSrc) Read(p []byte) (int, error) {
 	s.reads++
 	if s.fault == 0 {
+		if s.once {
+			s.fault = -1
+		}
 		return 0, errInjected
 	}
 	if len(p) == 0 {
